@@ -26,7 +26,14 @@ Inductive case :=
             computation that needs the result again): per task scope, the increments
             of each of its runs, in order of the runs *)
        (expected : list (nat * Z))       (* increments of the program on its input, each task once *)
-       (observed : list Z).              (* the counters of the final result *)
+       (observed : list Z)               (* the counters of the final result *)
+| CResub (reg : nat)
+       (tasks : list (list (nat * Z) * nat))
+         (* bigmachine, one machine: per task scope the increments of its one execution
+            and how many times the driver submitted it again to the worker that still
+            held it in TaskOk (the worker answers without executing) *)
+       (expected : list (nat * Z))
+       (observed : list Z).
 
 Definition payload_eqb := list_eqb (option_eqb Z.eqb).
 
@@ -209,6 +216,19 @@ Definition hist_exact (bigm : bool) (reg : nat) (tasks : list (list (list (nat *
   | (_, Panic) => false
   end.
 
+Definition resub_model (reg : nat) (tasks : list (list (nat * Z) * nat)) : world * res unit :=
+  run_bigmachine_resub worker_run_resets_scope worker_run_reply_filled_on_every_path reg tasks.
+
+Definition resub_exact (reg : nat) (tasks : list (list (nat * Z) * nat))
+           (expected : list (nat * Z)) (observed : list Z) : bool :=
+  match resub_model reg tasks with
+  | (w, Ok _) =>
+      Nat.eqb (length observed) reg
+      && all_metrics reg (fun m => Z.eqb (peek w 0 m) (nth m observed 0))
+      && all_metrics reg (fun m => Z.eqb (wrap (sum_incs m (concat (map fst tasks)))) (wrap (sum_incs m expected)))
+  | (_, Panic) => false
+  end.
+
 Definition e2e_ok (reg : nat) (expected : list (nat * Z)) (observed : list Z) : bool :=
   Nat.eqb (length observed) reg
   && all_metrics reg (fun m => Z.eqb (nth m observed 0) (wrap (sum_incs m expected))).
@@ -218,6 +238,7 @@ Definition case_exact (c : case) : bool :=
   | COps blind reg0 ns steps => run_exact blind (init reg0 ns) steps
   | CE2E bigm reg tasks expected observed => e2e_exact bigm reg tasks expected observed
   | CHist bigm reg tasks expected observed => hist_exact bigm reg tasks expected observed
+  | CResub reg tasks expected observed => resub_exact reg tasks expected observed
   end.
 
 Definition case_ok (c : case) : bool :=
@@ -225,6 +246,7 @@ Definition case_ok (c : case) : bool :=
   | COps _ reg0 ns steps => run_ok reg0 (repeat None ns) steps
   | CE2E _ reg _ expected observed => e2e_ok reg expected observed
   | CHist _ reg _ expected observed => e2e_ok reg expected observed
+  | CResub reg _ expected observed => e2e_ok reg expected observed
   end.
 
 Definition mismatches (cs : list case) : list nat := bad_indices case_exact cs.
